@@ -681,7 +681,7 @@ func execC17Handler(c C17Case, bound time.Duration) (map[string]bool, error) {
 		l, _ := svc.GetListener()
 		target := l.Addr().String()
 		go func() { done <- svc.DoListen(ctx, 0) }()
-		for i := 0; i < 300; i++ {
+		for dl := time.Now().Add(bound); time.Now().Before(dl); {
 			conn, err = net.Dial(network, target)
 			if err == nil {
 				break
@@ -828,7 +828,7 @@ func execC17Service(c C17Case, bound time.Duration) (map[string]bool, error) {
 		if tr == "tcp" {
 			network, target = "tcp", env.address[len("tcp:"):]
 		}
-		for i := 0; i < 300; i++ {
+		for dl := time.Now().Add(bound); time.Now().Before(dl); {
 			conn, err = net.Dial(network, target)
 			if err == nil {
 				break
